@@ -1,6 +1,154 @@
+/-
+  Props.C18 — bytes from untrusted peers never crash or wedge the node: theorems about the model of
+  the PARSING LAYER of client/network (Model/NetParse.lean), as tied to the current source by
+  Gen/NetFacts.lean (Model/NetParseFacts.lean compares the regenerated handler skeletons, Run's
+  command table and maxmsgsize with the copy the model was written against).
+
+  Scope (partial by design, DESIGN §6 C18): the theorems speak about length guards, CompactSize
+  reads, every index / slice expression on the payload with Go's 64-bit wrap-around, the locks held
+  at each exit and the iteration count of every loop. What lies behind the parser (peer database,
+  header acceptance, mempool matching, block queue, AEAD decryption) is NOT modelled.
+-/
 import GocoinV.Model.NetParse
 import GocoinV.Model.NetParseFacts
+import GocoinV.Proofs.C18
 namespace GocoinV.Props.C18
 open GocoinV GocoinV.NetParse
+
+/-- CENTRAL. For every command and every payload within the per-command size limit of
+    core.go maxmsgsize (regenerated from the source), the parsing layer of the handler Run
+    dispatches to does not panic, holds no lock when it returns, and runs at most
+    |payload| + 131073 loop iterations (1·|pl| + b; the constant is the two 16-bit counts a
+    cmpctblock may announce). `E` supplies what the parser asks of its surroundings; the only
+    assumption is that the transaction-size function never reports more bytes than it was given. -/
+theorem handler_total (E : Env) (hts : ∀ b, E.txSize b ≤ b.length) (cmd : String) (pl : Bytes)
+    (hl : pl.length ≤ Gen.NetFacts.maxMsgSize cmd) :
+    (parse E cmd pl).out.isPanic = false ∧ (parse E cmd pl).locks = [] ∧
+      (parse E cmd pl).steps ≤ pl.length + 131073 := by
+  have := maxMsgSize_le cmd
+  exact parse_total E hts cmd pl (by omega)
+
+example : ∃ E : Env, ∀ b, E.txSize b ≤ b.length :=
+  ⟨⟨fun _ => 0, fun _ => none, none, false, false⟩, fun _ => Nat.zero_le _⟩
+
+/-- the same with the transaction-size function of C09's wire model (lib/btc TxSize after its
+    `fix:`), for which the assumption is proved: no hypothesis left but the size limit. -/
+theorem handler_total_wire (ntx : Option Nat) (a b : Bool) (newTx : Bytes → Option (Nat × Nat)) (cmd : String) (pl : Bytes)
+    (hl : pl.length ≤ Gen.NetFacts.maxMsgSize cmd) :
+    let E : Env := ⟨Wire.txSize, newTx, ntx, a, b⟩
+    (parse E cmd pl).out.isPanic = false ∧ (parse E cmd pl).locks = [] ∧
+      (parse E cmd pl).steps ≤ pl.length + 131073 :=
+  handler_total ⟨Wire.txSize, newTx, ntx, a, b⟩ wire_txSize_le cmd pl hl
+
+/-- non-vacuity: a well-formed inv of one entry is within the limit and is parsed (not merely rejected) -/
+example : (parse ⟨Wire.txSize, fun _ => none, none, false, false⟩ "inv" ([1, 2, 0, 0, 0] ++ List.replicate 32 7)).out.isPanic = false ∧
+    (([1, 2, 0, 0, 0] ++ List.replicate 32 7 : Bytes).length ≤ Gen.NetFacts.maxMsgSize "inv") := by decide +kernel
+
+/-- FetchMessage (header, length limit, encrypted flag, checksum) never panics and holds no lock at
+    exit, for any wire bytes and any connection state. -/
+theorem fetch_total (E : FetchEnv) (w : Bytes) :
+    (fetchMessage E w).out.isPanic = false ∧ (fetchMessage E w).locks = [] :=
+  (fetchMessage_total E w).1
+
+/-- HandleVersion, current guard: total for every payload below 2^62 bytes. -/
+theorem version_total (pl : Bytes) (hl : pl.length < 2^62) :
+    (handleVersion pl).out.isPanic = false ∧ (handleVersion pl).locks = [] :=
+  (handleVersion_total pl hl).1
+
+example : ∃ pl : Bytes, pl.length < 2^62 := ⟨[], by decide⟩
+
+/-- ProcessInv, current guard: total, and the loop runs exactly the announced number of entries
+    (steps ≤ |pl| + 1). -/
+theorem inv_total (pl : Bytes) (hl : pl.length < 2^62) :
+    (processInv pl).out.isPanic = false ∧ (processInv pl).locks = [] ∧ (processInv pl).steps ≤ pl.length + 1 :=
+  ⟨(processInv_total pl hl).1.1, (processInv_total pl hl).1.2, (processInv_total pl hl).2⟩
+
+/-- ProcessGetBlockTxn, current (unsigned) index check: total for every block size and payload; the
+    differential-index loop terminates within the unread bytes. -/
+theorem getblocktxn_total (ntx : Option Nat) (pl : Bytes) :
+    (processGetBlockTxn ntx pl).out.isPanic = false ∧ (processGetBlockTxn ntx pl).locks = [] ∧
+      (processGetBlockTxn ntx pl).steps ≤ pl.length + 2 :=
+  ⟨(processGetBlockTxn_total ntx pl).1.1, (processGetBlockTxn_total ntx pl).1.2, (processGetBlockTxn_total ntx pl).2⟩
+
+/-- ProcessCmpctBlock (short ids, prefilled transactions), current index check: total. -/
+theorem cmpctblock_total (txSize : Bytes → Nat) (hts : ∀ b, txSize b ≤ b.length) (pl : Bytes) (hl : pl.length < 2^62) :
+    (processCmpctBlock txSize pl).out.isPanic = false ∧ (processCmpctBlock txSize pl).locks = [] :=
+  (processCmpctBlock_total txSize hts pl hl).1
+
+/-- ProcessBlockTxn transaction loop: total, terminates within the payload. -/
+theorem blocktxn_total (txSize : Bytes → Nat) (hts : ∀ b, txSize b ≤ b.length) (pl : Bytes) (hl : pl.length < 2^62) :
+    (processBlockTxn txSize pl).out.isPanic = false ∧ (processBlockTxn txSize pl).locks = [] ∧
+      (processBlockTxn txSize pl).steps ≤ pl.length + 2 :=
+  ⟨(processBlockTxn_total txSize hts pl hl).1.1, (processBlockTxn_total txSize hts pl hl).1.2, (processBlockTxn_total txSize hts pl hl).2⟩
+
+example : ∀ b : Bytes, Wire.txSize b ≤ b.length := wire_txSize_le
+
+/-! ### the pre-fix guards: the property was FALSE (witnesses replayed on the real code by the
+     harness before the `fix:` commits; keys in known_findings.txt) -/
+
+def wVersion : Bytes := List.replicate 80 0 ++ [2, 0]
+def wInv : Bytes := [0xff, 1, 0, 0, 0, 0, 0, 0, 0x40] ++ List.replicate 36 0
+/-- cnt = 0x0e38e38e38e38e3a: 36·cnt ≡ 40 (mod 2^64) (what the harness computes as wrapCount 36 40) -/
+def wInvLocked : Bytes := [0xff, 0x3a, 0x8e, 0xe3, 0x38, 0x8e, 0xe3, 0x38, 0x0e] ++ List.replicate 40 0
+def wGbt : Bytes := List.replicate 32 0xab ++ [1, 0xff, 0, 0, 0, 0, 0, 0, 0, 0x80]
+def tenOrNothing (b : Bytes) : Nat := if 10 ≤ b.length then 10 else 0
+def wCmpct : Bytes := List.replicate 88 0 ++ [0, 2, 1] ++ List.replicate 10 9 ++ [1] ++ List.replicate 10 9
+def wFetch : Bytes := [0xf9, 0xbe, 0xb4, 0xd9] ++ [0x76] ++ List.replicate 11 0 ++ [10, 0, 0, 0x80] ++ List.replicate 4 0
+def fenv : FetchEnv := ⟨[0xf9, 0xbe, 0xb4, 0xd9], fun _ => 1024, fun _ => [0, 0, 0, 0], false, false⟩
+
+/-- HandleVersion with the guard `len(pl) < 80+le`: the 82-byte payload with pl[80]=2 panics on
+    `pl[of:of+le]` WHILE c.Mutex IS HELD (no deferred unlock): the lock stays held. -/
+theorem version_old_counterexample :
+    (handleVersionG false wVersion).out.isPanic = true ∧ (handleVersionG false wVersion).locks = [Lock.conn] := by
+  decide +kernel
+
+/-- ProcessInv with the guard `len(pl) != of+36*cnt` in wrapping arithmetic: cnt = 2^62+1 passes and
+    the second iteration slices past the payload. -/
+theorem inv_old_counterexample : (processInvG false wInv).out.isPanic = true := by decide +kernel
+
+/-- … and with 36·cnt ≡ 40 the panic happens on `pl[of+4:of+36]`, inside c.Mutex. -/
+theorem inv_old_counterexample_locked :
+    (processInvG false wInvLocked).out.isPanic = true ∧ (processInvG false wInvLocked).locks = [Lock.conn] := by
+  decide +kernel
+
+/-- ProcessGetBlockTxn with `int(idx) >= len(Txs)`: index 2^63 is negative as int, passes, and
+    `Txs[idx]` is out of range. -/
+theorem getblocktxn_old_counterexample : (processGetBlockTxnG false (some 5) wGbt).out.isPanic = true := by
+  decide +kernel
+
+/-- ProcessCmpctBlock with the range check before `idx += exp`: two prefilled entries with
+    differential index 1 write slot 3 of 2. -/
+theorem cmpctblock_old_counterexample : (processCmpctBlockG false tenOrNothing wCmpct).out.isPanic = true := by
+  decide +kernel
+
+/-- FetchMessage reading `c.aesData.nonceSize` before checking that a key exists: a header whose
+    length field has bit 31 set panics before the handshake. -/
+theorem fetch_old_counterexample : (fetchMessageG false fenv wFetch).out.isPanic = true := by decide +kernel
+
+/-- the same six witnesses under the CURRENT guards: refused with a reason, no lock held. -/
+theorem witnesses_now_rejected :
+    (handleVersion wVersion).out.isPanic = false ∧ (handleVersion wVersion).locks = [] ∧
+    (processInv wInv).out.isPanic = false ∧ (processInv wInvLocked).out.isPanic = false ∧
+    (processInv wInvLocked).locks = [] ∧
+    (processGetBlockTxn (some 5) wGbt).out.isPanic = false ∧
+    (processCmpctBlock tenOrNothing wCmpct).out.isPanic = false ∧
+    (fetchMessage fenv wFetch).out.isPanic = false := by decide +kernel
+
+/-- the source facts the model relies on are the ones regenerated from the current source in this
+    run: skeletons (guards, index / slice expressions, Lock / Unlock / return, decoder and penalty
+    calls) of the handlers repaired by C18's fixes, Run's command table and gate. (All 24 lists
+    are compared in Model/NetParseFacts.lean, which this module imports.) -/
+theorem source_facts_current :
+    Gen.NetFacts.HandleVersion = Expected.HandleVersion ∧ Gen.NetFacts.ProcessInv = Expected.ProcessInv ∧
+    Gen.NetFacts.ProcessGetBlockTxn = Expected.ProcessGetBlockTxn ∧
+    Gen.NetFacts.ProcessCmpctBlock = Expected.ProcessCmpctBlock ∧
+    Gen.NetFacts.ProcessBlockTxn = Expected.ProcessBlockTxn ∧ Gen.NetFacts.FetchMessage = Expected.FetchMessage ∧
+    Gen.NetFacts.dispatch = Expected.dispatch ∧ Gen.NetFacts.runGate = Expected.runGate :=
+  ⟨facts_HandleVersion, facts_ProcessInv, facts_ProcessGetBlockTxn, facts_ProcessCmpctBlock, facts_ProcessBlockTxn,
+   facts_FetchMessage, facts_dispatch, facts_runGate⟩
+
+-- OPEN (not modelled, hence not stated): "whole handler" totality including the backend —
+-- ProcessNewHeader / PostCheckBlock / mempool matching / peer database; and the send-buffer
+-- pause path of processGetData. The statement above is about the parsing layer only.
 
 end GocoinV.Props.C18
